@@ -32,6 +32,12 @@ CHECKS = {
          "All 301 x 4 x 5 input shapes of the property are run (each with a probing receiver and a follow-up message): refused => channel still usable, accepted => every attachment present and correctly assigned, never a hang, panic or descriptor loss in transit. The input space is enumerated completely; schedules are sampled (the simulator contributes hang detection, seam observation and isolation).", "5/C15"),
  "C16": ("exploration", "deterministic simulation: seeded raw payloads + raw attachment lists, in-flight corruption injected at the seam, one sacrificial process per run; oracle on panics/aborts, foreign endpoints and released descriptors (ledger + watcher threads)",
          "Receivers of 12 types are fed valid, foreign-type, bad-index, duplicate-index, random, truncated and in-flight-corrupted messages with 0..8 attachments, directly or through a receiver set, decoded or dropped undecoded; oracle: result is Err or a value, no panic/abort, no endpoint that was not attached, every attached descriptor released afterwards. Sampling, not proof.", "5/C16"),
+ "C04": ("exploration", "deterministic simulation: seeded nested values with embedded endpoints probed by nonce after receipt; receiver transfer chains over threads/sim-processes under seeded schedules with concurrent senders; history oracle",
+         "Seeded nested values embedding up to 63 endpoints of all kinds and regions are sent (small and multi-packet) and every endpoint is compared by position and probed for identity; receivers hop 1..5 times between threads and sim-processes while senders keep sending; oracle: every successfully sent message reaches exactly one holder, in order. Sampling, not proof.", "5/C04"),
+ "C05": ("exploration", "deterministic simulation: seeded region lengths/contents/clones, receiver as thread or sim-process, drop ordering and creator crash under seeded schedules; byte-equality oracle",
+         "1..8 regions per message with lengths dense around 0/1/word/page boundaries, from_bytes and from_byte, cloned 0..3 times, compared byte for byte in the creator, every clone, the receiver, and again after the sender's copies, the message and the channel are gone or the creator's sim-process crashed. Largely an input property; the simulator adds process boundaries, drop/crash ordering and isolation. Sampling, not proof.", "5/C05"),
+ "C08": ("exploration", "deterministic simulation: seeded orders of server creation, client connect/send/exit (clean or crash) and accept on real threads and sim-processes; descriptor ledger + temp-dir inspection + exec-child inheritance fault",
+         "1..200 one-shot servers, used (client thread or sim-process with 1..20 messages, exiting or crashing before or after accept) or dropped unused; oracle: accept returns the first message, the receiver yields the rest in order (recv / try_recv / try_recv_timeout), names distinct, socket path and temp dir gone, no descriptor left in the ledger, listener never inherited by an exec'd child. Sampling, not proof.", "5/C08"),
 }
 PENDING = "check not built yet (work in progress in this session; will be claimed once its simulation scenario exists)"
 
